@@ -7,7 +7,7 @@ use std::marker::PhantomData;
 
 pub const ARENA_ALIGN: usize = 128;
 const PRE: usize = 128;
-const GUARD_BYTE: u8 = 0xB7;
+const GUARD_BYTE: u8 = 0xF7;
 
 pub struct Placed<T> {
     base: *mut u8,
